@@ -457,6 +457,38 @@ func init() {
 		oracleDoc: "for one table content: outputs through the wrapper method, the package-level Render/RenderTo, auto.Render with the corresponding style, and wrappers nested to depth 3 over every creation path are byte-identical per format; Render equals what RenderTo writes",
 		run: func(g *Gen, c int) ([]string, []string, bool) {
 			r := g.r
+			if c%6 == 1 {
+				// two tables with the same content and the same user callback (one that reports an error for
+				// every cell, registered before anything renders): one created bare and wrapped afterwards —
+				// its measuring callback comes after the user's — one created by the sub-package's New, where
+				// it comes first.  What created the table must not show in the bytes.
+				var viol []string
+				k := []string{"text", "markdown"}[(c/6)%2]
+				a := g.do("newtable")
+				p := strings.Fields(g.do("newvia " + k))
+				b, wb := p[0], p[1]
+				hs := joinC([]string{g.strItem("h0"), g.strItem("header one")})
+				var rows []string
+				for i := 0; i < 1+r.n(3); i++ {
+					rows = append(rows, joinC([]string{g.anyItem(alphaText, 3), g.anyItem(alphaText, 2)}[:1+r.n(2)]))
+				}
+				for i, t := range []string{a, b} {
+					g.do("addheaders " + t + " " + hs)
+					for _, row := range rows {
+						g.do("addrowitems " + t + " " + row)
+					}
+					g.do(fmt.Sprintf("regcb %s t:%d render cell fail:%d:%d", t, idOf(t), 1+i, 100100+i*100))
+				}
+				wa := g.do("wrap " + k + " " + a)
+				for round := 0; round < 2; round++ {
+					ca, fa := parseRes(g.do("render " + wa))
+					cb, fb := parseRes(g.do("render " + wb))
+					if ca != cb || fa["out"] != fb["out"] {
+						viol = append(viol, fmt.Sprintf("format %s: a table created bare and wrapped renders differently from the same content created by the sub-package's New (a user callback reports errors)", k))
+					}
+				}
+				return viol, nil, true
+			}
 			var t, w0 string
 			switch r.n(3) {
 			case 0:
